@@ -17,6 +17,12 @@ let i64_of_n = function N0 -> 0L | Npos p -> i64_of_pos p
 let int_of_n x = Int64.to_int (i64_of_n x)
 let n_of_string s = n_of_i64 (Int64.of_string ("0u" ^ s))
 let string_of_n x = Printf.sprintf "%Lu" (i64_of_n x)
+let z_of_string s =
+  if String.length s > 0 && s.[0] = '-' then
+    (match n_of_string (String.sub s 1 (String.length s - 1)) with N0 -> Z0 | Npos p -> Zneg p)
+  else (match n_of_string s with N0 -> Z0 | Npos p -> Zpos p)
+let string_of_z = function
+  | Z0 -> "0" | Zpos p -> string_of_n (Npos p) | Zneg p -> "-" ^ string_of_n (Npos p)
 let rec nat_of_int i = if i <= 0 then O else S (nat_of_int (i - 1))
 let rec int_of_nat = function O -> 0 | S k -> 1 + int_of_nat k
 
@@ -181,6 +187,18 @@ let handle (fields : string list) : string =
      | other -> show_rres other)
   | ["fixframe"; dname; key; fr] ->
     show_res show_frame (fix_frame (get_dialect dname) (key_opt key) (parse_frame fr))
+  | ["tlogw"; dname; budget; entries] ->
+    let es = List.map (fun t -> match split '#' t with
+                                 | [ts; fr] -> { e_time = z_of_string ts; e_frame = parse_frame fr }
+                                 | _ -> failwith "bad entry") (split ' ' entries) in
+    let (rs, file) = tlog_write_all (get_dialect dname) (nat_of_int (int_of_string budget)) [] es in
+    String.concat "," (List.map (function Ok _ -> "ok" | Err _ -> "err" | Panic -> "panic") rs) ^ "|" ^ hex_of_bytes file
+  | ["tlogr"; dname; n; h] ->
+    let cfg = { r_dialect = get_dialect dname; r_inkey = None } in
+    let rs = tlog_read_n (nat_of_int (int_of_string n)) cfg N0 (List.map (fun b -> B b) (bytes_of_hex h)) in
+    String.concat " " (List.map (function
+      | TEntry e -> "E(" ^ string_of_z e.e_time ^ "#" ^ show_frame e.e_frame ^ ")"
+      | TErr _ -> "X") rs)
   | ["tsmono"; ops] ->
     let ts = List.filter_map (fun op -> match split '@' op with
                                 | [_; now] -> if now = "0" then None else Some (n_of_string now)
